@@ -107,7 +107,7 @@ func main() {
 		for _, tn := range topos {
 			topo := lockh.Topologies[tn]
 			for _, ps := range product(alpha, len(topo.LockerOf)) {
-				sc := &lockh.Scenario{Topo: topo, Progs: ps, Shutdown: shutdown, Lease: lease, Residue: true, HonourCtx: honour}
+				sc := &lockh.Scenario{Topo: topo, Progs: ps, Shutdown: shutdown, Lease: lease, Residue: true, HonourCtx: honour, ReplyPoint: true}
 				c := cfg
 				nC := strings.Count(sc.String(), "C")
 				if !run.Thorough() && c.P > 1 && nC >= 2 {
